@@ -27,7 +27,21 @@
 (*            assembled Laplacian CAN move psi off 1.0 in one step         *)
 (*            (computed from the real operators of the run)                *)
 (*            ("init" = dt_init, "max" = dt_max, "other")                  *)
-(* Header: T.cfg = [adaptive, window, driven, screening].                  *)
+(*  "edit"    [how, changed, sites]  (optional) between two solves on ONE  *)
+(*            Device object the terminals of the meshed device were edited *)
+(*            WITHOUT re-meshing (a terminal polygon translated / scaled / *)
+(*            rotated in place, its points assigned, the tuple of          *)
+(*            terminals replaced); changed / sites = number of boundary    *)
+(*            edges / boundary sites whose terminal membership differs     *)
+(*            before and after the edit (raw coordinates against the       *)
+(*            polygons the harness specified).  From then on the injection *)
+(*            of every "cons" frame and the pinned sites of "frame0" are   *)
+(*            those of the terminals IN FORCE: such events carry epoch =   *)
+(*            number of edits that preceded the solve.                     *)
+(*  "query"   [what]  (optional) the device was only asked something       *)
+(*            (terminal_info(), a solver constructed but not run, copy())  *)
+(* Header: T.cfg = [adaptive, window, driven, screening] and optionally    *)
+(* edits = number of "edit" events the history is meant to contain.        *)
 (* Guarded = TRUE: the clauses guard the actions (accepted iff all hold);  *)
 (* Guarded = FALSE: everything is consumed and Diagnosis names the clauses *)
 (* that a trace violates.                                                  *)
@@ -46,13 +60,20 @@ VARIABLES tid, l,
           dtphase,    \* "init" | "max" | "bad": class of the step-size history
           nsteps,     \* steps recorded so far
           seenReq,    \* some terminal carried a non-zero requested current in a checked frame
+          epoch,      \* number of terminal edits consumed so far
+          reqSince,   \* a checked frame carried a non-zero requested current since the last edit
+          histOK,     \* every edit moved some boundary edge; every frame was judged against the terminals in force
           ok          \* vector of clause verdicts over everything consumed (sequence of booleans)
-vars == <<tid, l, ninit, dtphase, nsteps, seenReq, ok>>
+vars == <<tid, l, ninit, dtphase, nsteps, seenReq, epoch, reqSince, histOK, ok>>
+hist == <<epoch, reqSince, histOK>>
 
 T == Batch[tid]
 NEv == Len(T.ev)
 Ev == T.ev[l]
 Abs(x) == IF x < 0 THEN 0 - x ELSE x
+\* optional fields (traces without a history of edits do not carry them)
+EpochOf(e) == IF "epoch" \in DOMAIN e THEN e.epoch ELSE 0
+Edits == IF "edits" \in DOMAIN T.cfg THEN T.cfg.edits ELSE 0
 
 RECURSIVE SumTo(_, _)
 SumTo(f, n) == IF n = 0 THEN 0 ELSE f[n] + SumTo(f, n - 1)
@@ -101,6 +122,7 @@ StepHistoryOK(ph, ni) == /\ ph # "bad"
 
 ---------------------------------------------------------------------------
 Init == /\ tid \in 1..Len(Batch) /\ l = 1 /\ ninit = 0 /\ dtphase = "init" /\ nsteps = 0 /\ seenReq = FALSE
+        /\ epoch = 0 /\ reqSince = FALSE /\ histOK = TRUE
         /\ ok = <<TRUE, TRUE, TRUE, TRUE, TRUE, TRUE, TRUE, TRUE>>
 
 Upd(n, b) == [ok EXCEPT ![n] = ok[n] /\ b]
@@ -108,19 +130,22 @@ Upd(n, b) == [ok EXCEPT ![n] = ok[n] /\ b]
 Ctor == /\ l <= NEv /\ Ev.kind = "ctor"
         /\ (Guarded => BalancedAccepted(Ev))
         /\ ok' = Upd(1, BalancedAccepted(Ev))
-        /\ l' = l + 1 /\ UNCHANGED <<tid, ninit, dtphase, nsteps, seenReq>>
+        /\ l' = l + 1 /\ UNCHANGED <<tid, ninit, dtphase, nsteps, seenReq>> /\ UNCHANGED hist
 
 Frame0 == /\ l <= NEv /\ Ev.kind = "frame0"
           /\ (Guarded => Ev.init)
           /\ ok' = Upd(2, Ev.init)
-          /\ l' = l + 1 /\ UNCHANGED <<tid, ninit, dtphase, nsteps, seenReq>>
+          /\ histOK' = (histOK /\ EpochOf(Ev) = epoch)
+          /\ l' = l + 1 /\ UNCHANGED <<tid, ninit, dtphase, nsteps, seenReq, epoch, reqSince>>
 
 Cons == /\ l <= NEv /\ Ev.kind = "cons" /\ Ev.step >= 1
         /\ (Guarded => CellOutflowEqualsInjectionAt(Ev) /\ TerminalInflowEqualsRequestedAt(Ev))
         /\ ok' = [ok EXCEPT ![3] = ok[3] /\ CellOutflowEqualsInjectionAt(Ev),
                             ![4] = ok[4] /\ TerminalInflowEqualsRequestedAt(Ev)]
         /\ seenReq' = (seenReq \/ \E n \in 1..Len(Ev.terms) : Ev.terms[n].req # 0)
-        /\ l' = l + 1 /\ UNCHANGED <<tid, ninit, dtphase, nsteps>>
+        /\ reqSince' = (reqSince \/ \E n \in 1..Len(Ev.terms) : Ev.terms[n].req # 0)
+        /\ histOK' = (histOK /\ EpochOf(Ev) = epoch)
+        /\ l' = l + 1 /\ UNCHANGED <<tid, ninit, dtphase, nsteps, epoch>>
 
 Stat == /\ l <= NEv /\ Ev.kind = "stat"
         /\ LET ph == Phase(dtphase, Ev.dts, 1)
@@ -130,16 +155,25 @@ Stat == /\ l <= NEv /\ Ev.kind = "stat"
                                   ![7] = ok[7] /\ StationaryToRoundingAt(Ev),
                                   ![8] = ok[8] /\ ExactlyStationaryModKnownAt(Ev)]
               /\ dtphase' = ph /\ ninit' = ni /\ nsteps' = nsteps + Len(Ev.dts)
-        /\ l' = l + 1 /\ UNCHANGED <<tid, seenReq>>
+        /\ l' = l + 1 /\ UNCHANGED <<tid, seenReq>> /\ UNCHANGED hist
+
+\* the terminals of the meshed Device were edited without re-meshing: the frames that follow are judged against the NEW terminals
+Edit == /\ l <= NEv /\ Ev.kind = "edit"
+        /\ epoch' = epoch + 1 /\ reqSince' = FALSE
+        /\ histOK' = (histOK /\ Ev.changed > 0)
+        /\ l' = l + 1 /\ UNCHANGED <<tid, ninit, dtphase, nsteps, seenReq, ok>>
+
+Query == /\ l <= NEv /\ Ev.kind = "query"
+         /\ l' = l + 1 /\ UNCHANGED <<tid, ninit, dtphase, nsteps, seenReq, ok>> /\ UNCHANGED hist
 
 \* end of the run: an adaptive undriven run that is long enough has reached dt_max
 Finish == /\ l = NEv + 1
           /\ LET reached == (T.cfg.adaptive /\ ~T.cfg.driven /\ nsteps > WarmUp) => dtphase = "max"
              IN /\ (Guarded => reached)
                 /\ ok' = Upd(6, reached)
-          /\ l' = l + 1 /\ UNCHANGED <<tid, ninit, dtphase, nsteps, seenReq>>
+          /\ l' = l + 1 /\ UNCHANGED <<tid, ninit, dtphase, nsteps, seenReq>> /\ UNCHANGED hist
 
-Next == Ctor \/ Frame0 \/ Cons \/ Stat \/ Finish
+Next == Ctor \/ Frame0 \/ Cons \/ Stat \/ Edit \/ Query \/ Finish
 Spec == Init /\ [][Next]_vars
 
 ---------------------------------------------------------------------------
@@ -156,6 +190,12 @@ ExactlyStationaryModKnown == ok[8]
 Done == l = NEv + 2
 \* non-vacuity of a driven run's trace: some checked frame carried a requested current
 NonVacuous == (Done /\ T.cfg.driven) => seenReq
+\* non-vacuity of a history of terminal edits: the trace holds the announced number of edits, each of them moved the terminal
+\* over other boundary edges, every frame was judged against the terminals in force at its solve, and a driven solve followed
+\* the last edit
+EditsReached == Done => /\ epoch = Edits
+                        /\ histOK
+                        /\ (Edits > 0 => reqSince)
 
 Bit(b) == IF b THEN 0 ELSE 1
 Diagnosis == Done => PrintT(<<"CLAUSES", tid, Bit(ok[1]), Bit(ok[2]), Bit(ok[3]), Bit(ok[4]), Bit(ok[5]), Bit(ok[6]), Bit(ok[7]), Bit(ok[8])>>)
